@@ -66,17 +66,7 @@ def ok_tree(e, top=True):
     if v != 0 and not (Fraction(1, 1000) <= abs(v) < 10 ** 12):
         return False
     k = e[0]
-    if k == 'v' and e[3] and e[1].startswith('-'):
-        return False      # known finding C04-negvar: -@v with a negative value prints '--'
-    if k == 'neg':
-        x = e[1]
-        negs = 0
-        while x[0] in ('p', 'neg'):
-            if x[0] == 'neg':
-                negs += 1
-            x = x[1]
-        if x[0] == 'v' and (negs or x[3] or x[1].startswith('-')):
-            return False  # same finding: -(-@v), -(-(@v)), -(@v) with negative value (parsed as a negated variable)
+    # (-@v with a negative value, -(-@v), -(-(@v)) were excluded here while C04-negvar was an open finding; repaired by 88a3bc0)
     if k in ('p', 'neg'):
         return ok_tree(e[1], False)
     if k == 'b':
